@@ -1,4 +1,4 @@
-\* C04 demonstration of finding F30 at model level: the model of the code as it is (PushLastWins = TRUE) must violate ExplicitIdsWin.
+\* C04 sensitivity demonstration (finding F30, repaired): the model of the code before the repair (PushLastWins = TRUE) must violate ExplicitIdsWin.
 SPECIFICATION SSpec
 CONSTANTS
     NThreads = 1
@@ -6,6 +6,7 @@ CONSTANTS
     InstKind <- MC_Kind1
     NKeys = 3
     PropChoices <- MC_None
+    DupChoices <- MC_NoDups
     Kinds <- MC_None
     Forms <- MC_None
     MaxFrames = 3
@@ -18,7 +19,6 @@ CONSTANTS
     WithLazy = FALSE
     HasRng = TRUE
     ExplicitKinds <- MC_ExBoth
-    PushLastWins = TRUE
     WithCancel = FALSE
     CancelOwnIds = FALSE
     CtxForms <- MC_Forms
